@@ -158,9 +158,23 @@ def impl_conformance(files, wd):
         d = json.loads(open(vp).read().split("\n")[0])
         return {"checked": d["stats"]["checked"], "agree": d["stats"]["agree"], "bad": d["bad"][:2]}
     res = parallel(go, files)
+
+    def go_dyn(pair):
+        """Step-by-step replay of every plain invocation on the invocation state of NinjaImplMC (ImplDynTrace.tla)."""
+        sp, tp = pair
+        vp = tp + ".dyn"
+        r = run_tlc("ImplDynTrace.tla", "ImplDynTrace.cfg", env={"TRACE": tp, "VIOL": vp}, workers=1, timeout=3000, extra=["-noGenerateSpecTE"])
+        if r["error"] or not os.path.exists(vp):
+            return {"checked": 0, "steps": 0, "agree": 0, "error": (r["error"] or "no result") + ": " + r["out"][-1200:]}
+        d = json.loads(open(vp).read().split("\n")[0])
+        return {"checked": d["stats"]["checked"], "steps": d["stats"]["steps"], "agree": d["stats"]["agree"], "bad": d["bad"][:2]}
+    dyn = parallel(go_dyn, files)
     return {"checked": sum(r["checked"] for r in res), "accepted": sum(r["agree"] for r in res),
             "rejected": sum(r["checked"] - r["agree"] for r in res), "errors": [r["error"] for r in res if r.get("error")][:2],
-            "first_rejections": [b for r in res for b in r.get("bad", [])][:2]}
+            "first_rejections": [b for r in res for b in r.get("bad", [])][:2],
+            "dynamic": {"invocations_replayed": sum(r["checked"] for r in dyn), "steps": sum(r["steps"] for r in dyn),
+                        "steps_agreeing": sum(r["agree"] for r in dyn), "errors": [r["error"] for r in dyn if r.get("error")][:2],
+                        "first_disagreements": [b for r in dyn for b in r.get("bad", [])][:2]}}
 
 
 def validate(files, wd, spec="RefTrace"):
@@ -332,9 +346,18 @@ def engine_replay(pid, path):
         sp = os.path.join(wd, "s.ndjson")
         tp = os.path.join(wd, "t.ndjson")
         open(sp, "w").write(json.dumps(rp["scenario"]) + "\n")
-        r = subprocess.run([bins["h1"], sp, tp, "--choices", ",".join(str(c) for c in rp["choices"]) or "0"], capture_output=True, text=True)
-        if r.returncode != 0:
-            raise Broken("h1 failed: " + r.stderr)
+        if rp.get("h2") or str(rp["scenario"].get("id", "")).startswith("h2:"):
+            # a scenario of the real-binary harness: same scenario, same choices
+            import h2
+            b2 = nbuild.build("dbg", ["ninja", "verif_cmd"])
+            evs = h2.Execution(rp["scenario"], b2["ninja"], b2["verif_cmd"], h2.Chooser(rp["choices"]), 0).run()
+            with open(tp, "w") as f:
+                for e in evs:
+                    f.write(json.dumps(e) + "\n")
+        else:
+            r = subprocess.run([bins["h1"], sp, tp, "--choices", ",".join(str(c) for c in rp["choices"]) or "0"], capture_output=True, text=True)
+            if r.returncode != 0:
+                raise Broken("h1 failed: " + r.stderr)
         (d, r2), = validate([(sp, tp)], wd)
         if any(isinstance(h, dict) and h.get("printer") for h in rp["scenario"].get("hist", [])):
             (d3, r3), = stream_validate([(sp, tp)], wd)
